@@ -140,6 +140,13 @@ def run_case(ctx, g, rng):
     # (new names may contain the converter's own delimiter: remapping is about names, not about CURIE syntax)
     unknown = [x for x in alpha + ["zz", "yy", "ncbi" + d + "geo", d + "n"] if x not in known]
     rng.shuffle(unknown)
+    if rng.random() < 0.3 and known:
+        # an unknown name that a lenient reader would take for a known one (another letter case, a blank at the edge, a
+        # byte order mark): unknown all the same - as old prefix it is skipped, as new prefix it is simply new
+        tw = [x for x in gen.twins(rng.choice(known)) if x not in known and d not in x]
+        if tw:
+            unknown[:0] = rng.sample(tw, k=min(2, len(tw)))
+            S.counters["wl:unknown-names-that-are-twins-of-known-ones"] += 1
     m = {}
     style = rng.choice(["random", "random", "chain", "swap", "self", "partial-chain", "onto-synonym"])
     if style == "random":
